@@ -43,6 +43,10 @@ func (c *Conn) SendCall(ctx context.Context, request *UpstreamCall) (callID stri
 
 // ReceiveCallは、E2Eコールを受信します。
 func (c *Conn) ReceiveCall(ctx context.Context) (*DownstreamCall, error) {
+	if c.isClosed() {
+		// calls still buffered when the connection was closed are not handed out any more
+		return nil, errors.ErrConnectionClosed
+	}
 	ctx, cancel := c.state.WithCloseStatus(ctx)
 	defer cancel()
 	select {
@@ -64,6 +68,10 @@ func (c *Conn) ReceiveCall(ctx context.Context) (*DownstreamCall, error) {
 
 // ReceiveReplyCallは、E2Eリプライコールを受信します。
 func (c *Conn) ReceiveReplyCall(ctx context.Context) (*DownstreamReplyCall, error) {
+	if c.isClosed() {
+		// calls still buffered when the connection was closed are not handed out any more
+		return nil, errors.ErrConnectionClosed
+	}
 	ctx, cancel := c.state.WithCloseStatus(ctx)
 	defer cancel()
 	select {
